@@ -379,6 +379,21 @@ fn cross_decode(ctx: &mut Ctx, rng: &mut Rng, handle: &DynamicColumnHandle, exp_
     let n = exp_u64.len();
     // the model opens the whole column file (index length, cardinality code, optional index, start
     // offsets column, values column) and reads documents through its readers
+    if let (Some(ips), true) = (ip_flat.as_ref(), handle.column_type() == ColumnType::IpAddr && col.len() <= 40_000 && n > 0) {
+        let mut r2 = Rng(crate::report::fnv(col) ^ 0xC01F_11E6);
+        let docs = probe_indices(&mut r2, n, 300, 40);
+        let mut starts = Vec::with_capacity(n + 1);
+        let mut acc = 0usize;
+        for r in exp_u64 { starts.push(acc); acc += r.len(); }
+        starts.push(acc);
+        let resp = ctx.model.ask(&format!("C08 colfile128 {} {}", hex(col), nat_list(&docs.iter().map(|&d| d as u64).collect::<Vec<_>>())));
+        let row_txt = |d: usize| if starts[d] == starts[d + 1] { "-".to_string() } else { ips[starts[d]..starts[d + 1]].iter().map(|v| v.to_string()).collect::<Vec<_>>().join(",") };
+        let exp = format!("{} {n} {};{}", index[0], ips.len(), docs.iter().map(|&d| row_txt(d)).collect::<Vec<_>>().join("|"));
+        if resp != exp {
+            modelv(ctx, "C08:column-file-cross-decode", format!("{what}: the model reading the real u128 column file gives {}, expected {}", &resp[..resp.len().min(120)], &exp[..exp.len().min(120)]), case);
+        }
+        ctx.report.count("cross-decode:column-file-u128");
+    }
     if handle.column_type() != ColumnType::IpAddr && col.len() <= 40_000 && n > 0 {
         let mut r2 = Rng(crate::report::fnv(col) ^ 0xC01F_11E5);
         let docs = probe_indices(&mut r2, n, 300, 40);
@@ -731,7 +746,7 @@ fn opt_list(s: &str) -> Option<Vec<Option<u64>>> {
 /// the model of the dictionary merge (TermMerger k-way merge + term ordinal mapping) against the real
 /// merged Str / Bytes column: its dictionary, and the ordinals every merged row holds
 #[allow(clippy::too_many_arguments)]
-fn dict_merge_model(ctx: &mut Ctx, readers: &[ColumnarReader], name: &str, cat: Cat, order: &[(usize, usize)], alive_info: &[Option<Vec<usize>>], merged: &DynamicColumn, merged_ords: &[Vec<u64>], what: &str, case: &Value) {
+fn dict_merge_model(ctx: &mut Ctx, readers: &[ColumnarReader], name: &str, cat: Cat, stacked: bool, order: &[(usize, usize)], alive_info: &[Option<Vec<usize>>], merged: &DynamicColumn, merged_ords: &[Vec<u64>], what: &str, case: &Value) {
     let Some(mbc) = bytes_column_of(merged) else { return };
     let Some(mterms) = dict_terms(&mbc) else { return };
     let mut cols: Vec<Option<BytesColumn>> = vec![];
@@ -795,6 +810,24 @@ fn dict_merge_model(ctx: &mut Ctx, readers: &[ColumnarReader], name: &str, cat: 
             return;
         }
         ctx.report.count("merge:dict-column-compared");
+        // the same with the term bitsets computed by the model from the alive rows (compute_term_bitset)
+        let alive_txt: Vec<String> = alive_info.iter().map(|a| match a { Some(rows) => nat_list(&rows.iter().map(|&r| r as u64).collect::<Vec<_>>()), None => "*".to_string() }).collect();
+        let resp = ctx.model.ask(&format!("C08 dictalive {} {o} {} {}", alive_txt.join("/"), dict_txt.join("/"), ins_txt.join("/")));
+        let parsed = resp.split_once(';').and_then(|(m, rows)| Some((parse_nat_list(m)?, parse_rows_text(rows)?)));
+        if parsed != Some((model_merged.clone(), merged_ords.to_vec())) {
+            modelv(ctx, "C08:dict-merge-term-bitset", format!("{what}: with the model's term bitsets the merged dictionary column differs from the real one"), case);
+            return;
+        }
+        ctx.report.count("merge:dict-alive-compared");
+        if stacked {
+            let resp = ctx.model.ask(&format!("C08 dictstack {} {}", dict_txt.join("/"), ins_txt.join("/")));
+            let parsed = resp.split_once(';').and_then(|(m, rows)| Some((parse_nat_list(m)?, parse_rows_text(rows)?)));
+            if parsed != Some((model_merged.clone(), merged_ords.to_vec())) {
+                modelv(ctx, "C08:dict-merge-stack", format!("{what}: the model's stacked dictionary column differs from the real one"), case);
+                return;
+            }
+            ctx.report.count("merge:dict-stack-compared");
+        }
     }
     // the public all-terms mapping (index sorting uses it): every input present
     if cols.iter().all(|c| c.is_some()) {
@@ -934,7 +967,7 @@ pub fn case_merge(ctx: &mut Ctx, seed: u64, case: &Value) {
         let dc = match h.open() { Ok(d) => d, Err(e) => { oracle(ctx, "C08:column-open", format!("{what}: open failed: {e}"), case); continue; } };
         let u64rows = check_dynamic(ctx, &mut rng, Some(h), &dc, &exp_t, &what, case);
         if let (Some(rows), true) = (u64rows.as_ref(), order.len() <= 1500 && matches!(cat, Cat::Bytes | Cat::Str)) {
-            dict_merge_model(ctx, &readers, name, *cat, &order, &alive_info, &dc, rows, &what, case);
+            dict_merge_model(ctx, &readers, name, *cat, !shuffled, &order, &alive_info, &dc, rows, &what, case);
         }
         // model row mapping on u64-valued groups (merged values as the model's opaque values)
         if let (Some(rows), true) = (u64rows, order.len() <= 700 && !matches!(cat, Cat::Ip | Cat::Bytes | Cat::Str)) {
